@@ -2,7 +2,7 @@
    Print Assumptions beneath.  Definitions: C06/Model.v, C06/LibPy.v (tables: C06/Gen.v, regenerated);
    domains: C06/Proofs*.v.  str = list N (code points), Ok/Err = the exception monad. *)
 From Coq Require Import ZArith.
-From Wz Require Import lib.Bytes lib.Utf8 C06.LibPy C06.Gen C06.Model C06.Proofs C06.Proofs2 C06.Proofs3 C06.Proofs4 C07.Gen C07.Model C06.Proofs5 C06.Proofs6 C06.ProofsQuoted.
+From Wz Require Import lib.Bytes lib.Utf8 C06.LibPy C06.Gen C06.Model C06.Proofs C06.Proofs2 C06.Proofs3 C06.Proofs4 C07.Gen C07.Model C06.Proofs5 C06.Proofs6 C06.ProofsQuoted C06.ProofsAuth.
 Open Scope N_scope.
 
 (* the regex texts the hand-written matchers stand for are those of the current source *)
@@ -267,3 +267,47 @@ Example C06_options_always_quoted_inhabited :
   /\ parse_options_header (quoted_options_text h o2) = Ok (h, o2).
 Proof. repeat split; vm_compute; reflexivity. Qed.
 Print Assumptions C06_options_always_quoted_inhabited.
+
+(* ------------------------------------------------------------------ parameter auth schemes, Digest, If-Range *)
+(* Authorization / WWWAuthenticate(type, parameters) -> to_header -> from_header, outside Basic and Digest: scheme =
+   lower-case ASCII without blank (str.title and str.lower are modelled on ASCII / Latin-1 only), parameters a dict of the
+   C06_dict domain with at least one valued entry (otherwise the text has no '=' and is read as a token) *)
+Theorem C06_auth_parameters : forall scheme d h,
+  scheme_ok scheme = true -> list_eqb scheme s_basic = false -> dict_domain d = true -> has_value d = true ->
+  params_to_header scheme d = Ok h ->
+  authorization_from_header h = Ok (Some {| a_type := scheme; a_params := d; a_token := None |})
+  /\ www_authenticate_from_header h = Ok (Some {| a_type := scheme; a_params := d; a_token := None |}).
+Proof. exact auth_parameters_roundtrip. Qed.
+Print Assumptions C06_auth_parameters.
+(* WWWAuthenticate(digest, parameters): realm / domain / nonce / opaque / qop (key set regenerated) always quoted *)
+Theorem C06_auth_digest : forall d, d <> [] -> dict_domain (some_values d) = true ->
+  www_authenticate_from_header (www_digest_to_header d)
+  = Ok (Some {| a_type := s_digest; a_params := some_values d; a_token := None |}).
+Proof. exact digest_roundtrip. Qed.
+Print Assumptions C06_auth_digest.
+Example C06_auth_parameters_inhabited :
+  let d := [([114; 101; 97; 108; 109], Some [97; 98; 99]); ([115; 116; 97; 108; 101], None); ([113; 111; 112], Some [97; 44; 32; 34; 98])] in
+  scheme_ok [120; 45; 99] = true /\ dict_domain d = true /\ has_value d = true /\ (exists h, params_to_header [120; 45; 99] d = Ok h)
+  /\ dict_domain (some_values [([114; 101; 97; 108; 109], [97; 98; 99]); ([97; 108; 103], [77; 68; 53])]) = true.
+Proof. repeat split; try (vm_compute; reflexivity). eexists. vm_compute. reflexivity. Qed.
+Print Assumptions C06_auth_parameters_inhabited.
+(* If-Range with an entity tag, over any date parser (http.parse_date = email.utils, not modelled): the tag comes back
+   whenever the date parser declines the quoted text ... *)
+Theorem C06_if_range_partial : forall (D : Type) (parse_date : str -> option D) e h,
+  quote_etag e false = Ok h -> parse_date h = None -> parse_if_range parse_date h = IrEtag e.
+Proof. exact if_range_roundtrip. Qed.
+Print Assumptions C06_if_range_partial.
+(* ... and is read back as a date when it accepts it: an entity tag that looks like a date (known finding
+   if-range-date-like-etag; the implementation's parse_date accepts the quoted text Sun, 06 Nov 1994 08:49:37 GMT) *)
+Theorem C06_if_range_refuted : forall (D : Type) (parse_date : str -> option D) e h d,
+  quote_etag e false = Ok h -> parse_date h = Some d -> parse_if_range parse_date h = IrDate d.
+Proof. exact if_range_refuted. Qed.
+Print Assumptions C06_if_range_refuted.
+Example C06_if_range_inhabited : exists h, quote_etag [97; 32; 98] false = Ok h /\ parse_if_range (fun _ => @None nat) h = IrEtag [97; 32; 98].
+Proof. eexists. split; vm_compute; reflexivity. Qed.
+Print Assumptions C06_if_range_inhabited.
+(* option headers: the full normal-form statement is false (a key that keeps a star after RFC 2231 processing is written raw) *)
+Theorem C06_options_normal_form_refuted :
+  exists s h o t r, parse_options_header s = Ok (h, o) /\ dump_options_header h o = Ok t /\ parse_options_header t = Ok r /\ r <> (h, o).
+Proof. exact options_normal_form_refuted. Qed.
+Print Assumptions C06_options_normal_form_refuted.
